@@ -81,7 +81,7 @@ def share(a, b):
 
 
 class Node:
-    __slots__ = ("kind", "ch", "dur", "extra", "rel", "members", "reps", "key", "areg", "sid", "rel_known", "dur_known", "fixed_dur")
+    __slots__ = ("kind", "ch", "dur", "extra", "rel", "members", "reps", "key", "areg", "sid", "rel_known", "dur_known", "fixed_dur", "deflink")
 
     def __init__(self, kind):
         self.kind = kind
@@ -97,6 +97,7 @@ class Node:
         self.rel_known = True
         self.dur_known = True
         self.fixed_dur = None
+        self.deflink = False     # sub-circuits: still carries the no-relation link every default-constructed circuit shares
 
     @property
     def is_comp(self):
@@ -135,6 +136,7 @@ class Model:
         self.hkind = {}
         self._sid = 0
         self.notes = []        # placement verdicts etc.
+        self.by_sid = {}       # registry target id -> sub-circuit node
         self._ambiguous_roots = set()   # structures whose relation structure can no longer be followed exactly
         self.ambiguous = _AmbiguousView(self)
 
@@ -162,8 +164,10 @@ class Model:
             return r[1]
         return self.rregs.get(r[1], {}).get(r[2], 1)
 
-    def new_sid(self):
+    def new_sid(self, node=None):
         self._sid += 1
+        if node is not None:
+            self.by_sid[self._sid] = node
         return self._sid
 
     # ------------------------------------------------------------------ construction
@@ -171,7 +175,8 @@ class Model:
         root = Node("COMP")
         root.members = []
         root.reps = ("fixed", reps["fixed"]) if "fixed" in reps else ("reg", reps["reg"][0], reps["reg"][1])
-        root.sid = self.new_sid()
+        root.sid = self.new_sid(root)
+        root.deflink = True
         self.roots[name] = root
         self.entries[name] = []
         self.hkind[name] = "decl"
@@ -406,7 +411,7 @@ class Model:
             c.areg = retarget.get(n.areg, n.areg)
             if n.is_comp:
                 c.reps = n.reps
-                c.sid = self.new_sid()
+                c.sid = self.new_sid(c)
                 retarget_local[n.sid] = c.sid
                 c.members = []
                 for m in n.members:
@@ -426,14 +431,69 @@ class Model:
         out = cp(node)
         return out
 
+    def blocks_below(self, node, include_self):
+        out = [node] if include_self else []
+
+        def walk(b):
+            for m in b.members:
+                if m.is_comp:
+                    out.append(m)
+                    walk(m)
+
+        walk(node)
+        return out
+
+    def key_collision(self, node, self_is_key):
+        """Known finding D17: sub-circuits are lookup keys while a circuit is copied and compare by value (relation
+        link, repetition strategy). Circuits that still carry the no-relation link all default-constructed circuits
+        share and have equal repetition strategies are the same key. True iff, in a copy of `node`, something that is
+        looked up (a block of the copied circuit as relation target, or the reference circuit of the acquisition
+        registry of one of its measurements - possibly a circuit outside of it) is the same key as another block
+        of the copied circuit. The circuit itself is a key when it is added as a sub-circuit (not when it is copied
+        or repeated)."""
+        below = self.blocks_below(node, False)
+        keys = [b for b in below if b.deflink] + ([node] if self_is_key and node.deflink else [])
+        if not keys:
+            return False
+        looked_up = list(below) + [node]
+
+        def measures(b):
+            for m in b.members:
+                if m.is_comp:
+                    measures(m)
+                elif m.kind == "DispersiveMeasure" and m.areg in self.by_sid:
+                    looked_up.append(self.by_sid[m.areg])
+
+        measures(node)
+        for x in looked_up:
+            if not x.deflink:
+                continue
+            for k in keys:
+                if k is not x and repr(k.reps) == repr(x.reps):
+                    return True
+        return False
+
+    def _kill_scope(self, node):
+        if node.kind == "DispersiveMeasure":
+            node.areg = -1
+        if node.is_comp:
+            for m in node.members:
+                self._kill_scope(m)
+
     def add_sub(self, name, child_name, key=None):
         root = self.roots[name]
         child = self.roots[child_name]
+        collision = self.key_collision(child, True)
         c = self.copy_tree(child, retarget={child.sid: root.sid})
         # measurements indexed by the child's registry are indexed by the parent's afterwards
         self._retarget(c, child.sid, root.sid)
         c.key = key
         verdict = {"ok": True}
+        if collision:
+            # which copy a relation or an acquisition registry is re-pointed to is not defined then
+            verdict["collision"] = True
+            self._kill_scope(c)
+            self.ambiguous.add(name)
         if root.rel_known:
             sharing, adm = self.admissible(root, self.channels_of(c))
             c.rel = None
@@ -444,6 +504,29 @@ class Model:
         if not child.rel_known:
             pass
         return c, verdict
+
+    def add_live(self, name, child_name, key=None):
+        """Nest the live structure of another circuit: the very same block is a member of the parent afterwards
+        (later additions to it show in the parent); its measurements stay indexed by its own registry."""
+        root = self.roots[name]
+        c = self.roots[child_name]
+        if c is root or self._contains(c, root) or self._contains(root, c):
+            raise ModelError("live nesting would make the circuit contain itself / the block twice")
+        c.key = key
+        verdict = {"ok": True}
+        if root.rel_known:
+            sharing, adm = self.admissible(root, self.channels_of(c))
+            c.rel = None
+            verdict["sharing"] = [m for m in sharing]
+            verdict["adm"] = adm
+        root.members.append(c)
+        self.entries[name].append(c)
+        return c, verdict
+
+    def settle_live(self, c):
+        """A live-nested circuit that is placed behind something receives a link of its own."""
+        if c.rel is not None:
+            c.deflink = False
 
     def place_sub(self, name, c, impl, verdict):
         """Second half of add_sub: follow the implementation's placement of the nested copy."""
@@ -496,6 +579,10 @@ class Model:
         self.hkind[as_name] = "comp"
         if name in self.ambiguous:
             self.ambiguous.add(as_name)
+        if self.key_collision(src, False):
+            self._kill_scope(c)
+            self.ambiguous.add(as_name)
+            self.notes.append("copy-key-collision")
         return c
 
     def alias(self, name, as_name):
@@ -544,6 +631,11 @@ class Model:
             if m.is_comp:
                 self.unroll(m, name)
         if n > 1:
+            if self.key_collision(block, False):
+                if name is not None:
+                    self.ambiguous.add(name)
+                self._kill_scope(block)
+                self.notes.append("unroll-key-collision")
             original = self.copy_tree(block)
             for _ in range(n - 1):
                 cp = self.copy_tree(original)
@@ -812,7 +904,8 @@ class Model:
         root = Node("COMP")
         root.members = []
         root.reps = ("fixed", 1)
-        root.sid = self.new_sid()
+        root.sid = self.new_sid(root)
+        root.deflink = True
         root.rel_known = False
         root.dur_known = False
         cnodes = []
@@ -820,7 +913,7 @@ class Model:
             c = Node("COMP")
             c.members = []
             c.reps = ("fixed", k["reps"])
-            c.sid = self.new_sid()
+            c.sid = self.new_sid(c)
             c.rel_known = False
             c.dur_known = False
             c.key = keys_comps[j] if keys_comps else None
